@@ -476,7 +476,8 @@ def bounded(tier, seed):
             self.q = Fluent("q", tm.BoolType(), environment=self.env)
             self.x = Fluent("x", tm.IntType(), environment=self.env)
             self.y = Fluent("y", tm.IntType(), environment=self.env)
-            for f in (self.p, self.q, self.x, self.y):
+            self.z = Fluent("z", tm.IntType(0, 10), environment=self.env)       # bounded: type inference computes with the bounds (division by a constant zero fails THERE)
+            for f in (self.p, self.q, self.x, self.y, self.z):
                 self.pr.add_fluent(f)
             self.v = Variable("v", self.T, self.env)
             self.u = Variable("u", self.T, self.env)
@@ -493,6 +494,8 @@ def bounded(tier, seed):
                 return em.FluentExp(self.x)
             if k == "y":
                 return em.FluentExp(self.y)
+            if k == "z":
+                return em.FluentExp(self.z)
             if k == "int":
                 return em.Int(r[1])
             if k == "obj":
@@ -556,9 +559,18 @@ def bounded(tier, seed):
     failures, evals, nontrivial = [], 0, set()
     with warnings.catch_warnings():
         warnings.simplefilter("ignore")
-        for h in range(n_hist):
-            calls = []
-            for _ in range(n_calls):
+        # directed histories (no random stream): the SAME failing call repeated -- a substitution that makes a division by the constant zero appear under a
+        # bounded numerator (type inference of the new node raises, not a UPTypeError), at depth 0, 1 and 2, with successful calls in between
+        zy = ("div", ("z",), ("y",))
+        fail0 = ("substitute", ("lt", zy, ("int", 3)), [(("y",), ("int", 0))])
+        fail1 = ("substitute", ("and", ("q",), ("lt", ("plus", zy, ("int", 1)), ("int", 3))), [(("y",), ("int", 0))])
+        fail2 = ("substitute", ("exists", 0, ("or", ("p", ("var", 0)), ("le", ("int", 2), ("times", ("int", 2), zy)))), [(("y",), ("int", 0))])
+        okc = ("substitute", ("lt", zy, ("int", 3)), [(("y",), ("int", 2))])
+        directed = [[f_] * 5 for f_ in (fail0, fail1, fail2)] + [[fail0, okc, ("type", ("lt", zy, ("int", 3))), fail0, ("simplify", ("lt", zy, ("int", 3))), fail0, fail1, fail1, fail1],
+                                                              [fail2, ("add_object",), fail2, okc, fail2, fail2, fail2]]
+        for h in range(-len(directed), n_hist):
+            calls = list(directed[h + len(directed)]) if h < 0 else []
+            for _ in range(n_calls if h >= 0 else 0):
                 kind = rng.choice(["substitute", "substitute", "substitute", "simplify", "type", "free", "unquantify", "add_object"])
                 e = boolean(3)
                 if kind == "substitute" and rng.random() < 0.5:
